@@ -671,12 +671,20 @@ func (x *Exec) execStmt(s ast.Stmt, env *Env, label string) *Env {
 				vals = append(vals, x.evalAs(r, env, t))
 			}
 		}
-		if x.cx.fc != nil && len(x.cx.fc.AtReturn) > 0 && x.quiet == 0 && x.unroll == 0 && len(s.Results) > 0 {
-			if id, ok := ast.Unparen(s.Results[len(s.Results)-1]).(*ast.Ident); ok && id.Name == "nil" {
-				sc := x.scopeAt(env, s.Pos())
-				for i, c := range x.cx.fc.AtReturn {
-					x.assert(env, "atreturn:"+clauseName(c, i), "", sc.EvalBool(c.Expr))
+		if x.cx.fc != nil && len(x.cx.fc.AtReturn) > 0 && x.quiet == 0 && x.unroll == 0 {
+			success := false
+			if len(s.Results) > 0 {
+				if id, ok := ast.Unparen(s.Results[len(s.Results)-1]).(*ast.Ident); ok && id.Name == "nil" {
+					success = true
 				}
+			}
+			sc := x.scopeAt(env, s.Pos())
+			ord := x.returnOrdinal(s)
+			for i, c := range x.cx.fc.AtReturn {
+				if (c.Ordinal > 0 && c.Ordinal != ord) || (c.Ordinal == 0 && !success) {
+					continue
+				}
+				x.assert(env, "atreturn:"+clauseName(c, i), "", sc.EvalBool(c.Expr))
 			}
 		}
 		x.cx.rets = append(x.cx.rets, retRec{env: env.clone(), vals: vals})
@@ -1939,4 +1947,23 @@ func needsTermination(fc *FuncContract) bool {
 		}
 	}
 	return false
+}
+
+// returnOrdinal: 1-based position of a return statement among the return statements of the current function
+// (source order, closures excluded).
+func (x *Exec) returnOrdinal(r *ast.ReturnStmt) int {
+	n, found := 0, 0
+	ast.Inspect(x.cx.fi.Decl.Body, func(nd ast.Node) bool {
+		if _, isLit := nd.(*ast.FuncLit); isLit {
+			return false
+		}
+		if rs, ok := nd.(*ast.ReturnStmt); ok {
+			n++
+			if rs == r {
+				found = n
+			}
+		}
+		return found == 0
+	})
+	return found
 }
